@@ -348,6 +348,18 @@ pub fn check(tg: &Target, frag: &str, t: &mut Tally) {
             }
         }
     }
+    // a callable or a path list is never written quoted: every string is refused, with a span
+    if matches!(squash(tg.name.to_string()).as_str(), "Callable" | "PathList") {
+        for (how, m) in [("quoted", meta_lone(&format!("v = {}", rust_str(frag)))), ("quoted inside a list", meta_in_list(&format!("v = {}", rust_str(frag))))] {
+            let Some(m) = m else { continue };
+            t.evaluations += 1;
+            t.hit("unquotable_checked");
+            match (tg.conv)(&m) {
+                R::Err { spanned_inside: true, .. } => {}
+                other => bad(format!("{how}: a string literal gives {other:?}; this target takes no string, the refusal carries a span inside the item"), t),
+            }
+        }
+    }
     // quoted spelling
     if tg.quoting {
         let mut quoted: Vec<(&str, R)> = vec![];
@@ -625,7 +637,7 @@ fn list_forms(t: &mut Tally) {
         }
         Err(e) => t.violate(Violation { key: "C13 Vec<LitInt> list rejected".into(), what: format!("Vec<LitInt> <- `v(1, 0x2, 3u8)` rejected: {e}"), case: json!({}), detail: json!({}) }),
     }
-    for src in ["v", "v = 5", "v(a, b = 1)", "v = a::b", "v(x(y))"] {
+    for src in ["v", "v = 5", "v(a, b = 1)", "v = a::b", "v(x(y))", "v[a, b]", "v{a}", "v[]", "v{x(y), z[w]}", "v(x[y])", "a::v[1 + 2]", "v(,)"] {
         let m = meta_lone(src).unwrap();
         t.evaluations += 1;
         match syn::Meta::from_meta(&m) {
